@@ -162,7 +162,7 @@ pub fn run(ctx: &Ctx) -> i32 {
                 st.merge(ctx.run_indexed(&name, cnt * 2, Some(&format!("all {} DAGs with {} leaf/leaves and {} custom-operation nodes (each node takes one operand or an ordered pair among all earlier nodes), root = last node, backward(None) and backward(seed)", cnt, leaves, n)), |i| dag(leaves, n, i / 2, (i % 2) as u8).map(|h| Case11::H(HistCase { oracle: "c11".into(), hist: h }))));
             }
         }
-        let (len, total) = t.pick((14usize, 6000u64), (40, 120000));
+        let (len, total) = t.pick((14usize, 40000u64), (40, 600000));
         for (name, exact) in [("mixed-custom-and-builtin-programs-exact", true), ("mixed-custom-and-builtin-programs", false)] {
             let cfg = custom_cfg(t, exact);
             st.merge(ctx.run_prop(name, total / 2, move || recipe_strategy(len), move |r| Some(Case11::H(HistCase { oracle: "c11".into(), hist: elaborate(&cfg, r) }))));
